@@ -2,7 +2,7 @@
 //! current directory are process-global. The Python wrapper (`checks/c18.py`) prepares the
 //! directory tree and the child's environment, then runs
 //!
-//!     cfgload --variant strict|plain|lenient [--dir PATH] [--profile dev|prod|staging_eu]
+//!     cfgload --variant strict|plain|lenient [--dir PATH] [--profile NAME] [--profile-type derived|free]
 //!
 //! `--dir` absent  => `configuration_dir` is not called (documented default `configuration/`).
 //! `--profile` absent => `.profile()` is not called (profile comes from `PX_PROFILE`).
@@ -21,6 +21,30 @@ pub enum Profile {
     // Default naming: snake_case of the variant name => "staging_eu".
     StagingEu,
 }
+
+/// A hand-written profile type (the documentation allows implementing `ConfigProfile` manually): the profile name is
+/// free text, so names the derive macro cannot produce — with dots, dashes, upper case — select `<name>.yml` too.
+#[derive(Debug, Clone, PartialEq, Eq)]
+pub struct FreeProfile(String);
+
+pub const FREE_PROFILES: &[&str] = &["prod.eu", "prod.us", "v1.2", "my-profile", "Stage_2", "a.b.c"];
+
+impl std::str::FromStr for FreeProfile {
+    type Err = String;
+    fn from_str(s: &str) -> Result<Self, String> {
+        if FREE_PROFILES.contains(&s) {
+            Ok(FreeProfile(s.to_string()))
+        } else {
+            Err(format!("`{s}` is not a profile of this application"))
+        }
+    }
+}
+impl AsRef<str> for FreeProfile {
+    fn as_ref(&self) -> &str {
+        &self.0
+    }
+}
+impl ConfigProfile for FreeProfile {}
 
 // ---------------------------------------------------------------- strict: deny_unknown_fields
 #[derive(Debug, Clone, Deserialize, Serialize)]
@@ -124,11 +148,11 @@ fn error_chain(e: &dyn std::error::Error) -> String {
     s
 }
 
-fn load<T: serde::de::DeserializeOwned + Serialize>(
+fn load<T: serde::de::DeserializeOwned + Serialize, P: ConfigProfile>(
     dir: Option<&str>,
-    profile: Option<Profile>,
+    profile: Option<P>,
 ) -> serde_json::Value {
-    let mut loader = ConfigLoader::<Profile>::new();
+    let mut loader = ConfigLoader::<P>::new();
     if let Some(d) = dir {
         loader = loader.configuration_dir(d);
     }
@@ -146,6 +170,8 @@ fn main() {
     let mut variant = String::from("plain");
     let mut dir: Option<String> = None;
     let mut profile: Option<Profile> = None;
+    let mut free_profile: Option<FreeProfile> = None;
+    let mut free = false;
     let mut i = 0;
     while i < args.len() {
         match args[i].as_str() {
@@ -164,11 +190,19 @@ fn main() {
                     "dev" => Profile::Development,
                     "prod" => Profile::Production,
                     "staging_eu" => Profile::StagingEu,
+                    other if FREE_PROFILES.contains(&other) => {
+                        free_profile = Some(FreeProfile(other.to_string()));
+                        Profile::Development
+                    }
                     other => {
                         eprintln!("unknown explicit profile {other}");
                         std::process::exit(3);
                     }
                 });
+                i += 2;
+            }
+            "--profile-type" => {
+                free = args[i + 1] == "free";
                 i += 2;
             }
             other => {
@@ -178,11 +212,14 @@ fn main() {
         }
     }
     std::panic::set_hook(Box::new(|_| {}));
-    let res = std::panic::catch_unwind(|| match variant.as_str() {
-        "strict" => load::<StrictCfg>(dir.as_deref(), profile),
-        "plain" => load::<PlainCfg>(dir.as_deref(), profile),
-        "lenient" => load::<LenientCfg>(dir.as_deref(), profile),
-        other => {
+    let res = std::panic::catch_unwind(|| match (variant.as_str(), free) {
+        ("strict", false) => load::<StrictCfg, _>(dir.as_deref(), profile),
+        ("plain", false) => load::<PlainCfg, _>(dir.as_deref(), profile),
+        ("lenient", false) => load::<LenientCfg, _>(dir.as_deref(), profile),
+        ("strict", true) => load::<StrictCfg, _>(dir.as_deref(), free_profile.clone()),
+        ("plain", true) => load::<PlainCfg, _>(dir.as_deref(), free_profile.clone()),
+        ("lenient", true) => load::<LenientCfg, _>(dir.as_deref(), free_profile.clone()),
+        (other, _) => {
             eprintln!("unknown variant {other}");
             std::process::exit(3);
         }
